@@ -5,6 +5,7 @@ SPECIFICATION Spec
 CONSTANTS
   Fwd = {p1, p2}
   Ids = {m1}
+  T2Ids = {}
   LocalIds = {m1}
   Workers = {w1, w2}
   Calls = {c1}
@@ -26,4 +27,5 @@ INVARIANT P_C04_OnlyIfAllAccept
 INVARIANT P_C04_Outcome
 INVARIANT P_C04_Penalty
 INVARIANT P_C04_Local
+INVARIANT P_C04_Applicable
 CHECK_DEADLOCK FALSE
